@@ -723,3 +723,10 @@ def run(run):
         run.observe('TAGREAD: the structural rule does not apply to this form of gr_str_to_tag (%s); decided by bounded execution' % ex)
     tagread_exec(run, fx)
     tagnorm.check(run, fx, 'TAGNORM')
+    if not run.cfg_tag:
+        # the same with tracing compiled in (what cmake builds unless GRAPHITE2_NTRACING is set), for the two units that take tags
+        run.cfg_tag = 'traceapi'
+        try:
+            tagnorm.check(run, run.facts('traceapi'), 'TAGNORM')
+        finally:
+            run.cfg_tag = ''
